@@ -298,7 +298,8 @@ def _run_harness_once(binary, cases, workdir, tag, limit):
                            timeout=limit)
         out, timed_out = r.stdout, False
         if r.returncode != 0:
-            raise RuntimeError("harness failed (%d):\n%s" % (r.returncode, r.stderr[-2000:]))
+            # the process died (abort, stack overflow, ...): the case after the last completed one did it
+            timed_out = "crash"
     except subprocess.TimeoutExpired as e:
         out = e.stdout or ""
         if isinstance(out, bytes):
@@ -325,8 +326,10 @@ def _run_harness_chunk(args):
             if len(res) != len(rest):
                 raise RuntimeError("harness produced %d results for %d cases" % (len(res), len(rest)))
             break
-        # the case after the last completed one did not finish within the limit
-        results.append(["timeout"])
+        # the case after the last completed one did not finish within the limit (or killed the process)
+        if len(res) >= len(rest):
+            raise RuntimeError("harness ended abnormally after its last case")
+        results.append(["timeout" if timed_out is True else "crash"])
         rest = rest[len(res) + 1:]
     return results
 
@@ -405,7 +408,7 @@ def dual_check(cases, rust, workdir, rtol_default):
     for i in idx:
         c = cases[i]
         r = rust[i]
-        if any(o in ("panic", "timeout") for o in r):
+        if any(o in ("panic", "timeout", "crash") for o in r):
             continue
         d = {"name": c["name"], "tangents": c["tangents"],
              "instrs": list(c["instrs"][:c["backward_at"]]) + [("obs", c["root"])]}
@@ -524,10 +527,12 @@ def main():
                                if x == x and abs(x) != float("inf")])
             tol = tol * big
         d = dsl.first_difference(r, m, tol, c.get("adjudicate"), c.get("lenient"))
-        if r == ["timeout"]:
+        if r == ["timeout"] or r == ["crash"]:
             failures.append({"case": i, "confirmed": True,
-                             "reason": "corgi did not finish this program within the time limit of its chunk "
-                                       "(the model evaluates it in milliseconds)"})
+                             "reason": ("corgi did not finish this program within the time limit of its chunk "
+                                        "(the model evaluates it in milliseconds)") if r == ["timeout"] else
+                                       "the process running corgi died on this program (abort / stack overflow), "
+                                       "which no panic-catching can report"})
         elif d is not None:
             kind = dsl.difference_kind(r, m, d)
             # is the disagreement itself a failing input of THIS property?  For functional properties the
